@@ -324,7 +324,12 @@ class DeltaEnergyController(IterationController):
 
         inclvl = False
         Eval = energy.value
-        rel = abs(self._Eold-Eval)/max(abs(self._Eold), abs(Eval))
+        scale = max(abs(self._Eold), abs(Eval))
+        # Two vanishing energies (e.g. a QuadraticEnergy at the origin right
+        # after `start`): there is no relative change. `nan` compares False
+        # below, which is what a numpy scalar division would have produced;
+        # Python floats would raise ZeroDivisionError instead.
+        rel = abs(self._Eold-Eval)/scale if scale != 0 else float("nan")
         if self._itcount > 0:
             if rel < self._tol_rel_deltaE:
                 inclvl = True
